@@ -9,3 +9,4 @@ import Scfg.Props.C18
 import Scfg.Props.C13
 import Scfg.Props.C16
 import Scfg.Props.C09
+import Scfg.Props.C11
